@@ -128,10 +128,11 @@ Section TwoOracles.
     cequiv (fst (desugar_expression ord ordi pth e c n)) (fst (desugar_expression ord' ordi' pth' e c' n)) /\
     snd (desugar_expression ord ordi pth e c n) = snd (desugar_expression ord' ordi' pth' e c' n).
   Proof.
-    induction e as [v|v|t|l IHl r IHr|l IHl r IHr|l IHl r IHr]; intros pth pth' c c' n S; simpl.
+    induction e as [v|v|t|l IHl r IHr|l IHl r IHr|l IHl r IHr]; intros pth pth' c c' n S;
+      cbn [desugar_expression].
     - split; [apply ce_refl | reflexivity].
     - split; [apply ce_refl | reflexivity].
-    - split; [|reflexivity]. apply wrap_perm; [apply ord_seteq_perm; exact S | apply ce_refl].
+    - simpl. split; [|reflexivity]. apply wrap_perm; [apply ord_seteq_perm; exact S | apply ce_refl].
     - pose proof (contract_split_seteq pth pth' l r c c' S) as CS.
       destruct (contract_split ordi pth l r c) as [[cl cr] inter].
       destruct (contract_split ordi' pth' l r c') as [[cl' cr'] inter'].
